@@ -307,7 +307,7 @@ def _replay_profile_plain(d):
          "contained in the read span is never left unmarked")
 def c13_profiles(tier, rng):
     import itertools
-    coords = list(range(1, 14 if tier == "quick" else 16))
+    coords = list(range(1, 14 if tier == "quick" else 12))   # thorough: exhaustive over 1..11 (2.1 M pairs x 3 deltas, split over the shards)
     def block_lists(nmax):
         out = []
         for n in range(1, nmax + 1):
